@@ -520,7 +520,7 @@ func (s *stickyBalanceStrategy) performReassignments(reassignablePartitions []to
 				Logger.Printf("Expected topic %s partition %d to be assigned to a consumer", partition.Topic, partition.Partition)
 			}
 
-			if _, exists := prevAssignment[partition]; exists {
+			if prev, exists := prevAssignment[partition]; exists && strsContains(partition2AllPotentialConsumers[partition], prev.MemberID) {
 				if len(currentAssignment[consumer]) > (len(currentAssignment[prevAssignment[partition].MemberID]) + 1) {
 					sortedCurrentSubscriptions = s.reassignPartition(partition, currentAssignment, sortedCurrentSubscriptions, currentPartitionConsumer, prevAssignment[partition].MemberID)
 					reassignmentPerformed = true
